@@ -194,7 +194,7 @@ func init() {
 		}()
 		return makeSys(j.s("c", ""), j)
 	}
-	for _, k := range []string{"iter", "snap", "c15", "json11", "json12", "pure", "race", "enum", "anysys", "rewound", "largereaders"} {
+	for _, k := range []string{"iter", "snap", "c15", "json11", "json12", "pure", "race", "enum", "anysys", "rewound", "largereaders", "largestates"} {
 		sysForJob[k] = generic
 	}
 	sysForJob["kv"] = func(j Job) Sys { return kvSysFromJob(j) }
